@@ -1318,11 +1318,7 @@ impl fmt::Display for Type2<'_> {
       Type2::UintValue { value, .. } => write!(f, "{}", value),
       Type2::FloatValue { value, .. } => write!(f, "{:?}", value),
       Type2::TextValue { value, .. } => write!(f, "\"{}\"", crate::token::escape_text(value)),
-      Type2::UTF8ByteString { value, .. } => write!(
-        f,
-        "'{}'",
-        core::str::from_utf8(value).map_err(|_| fmt::Error)?
-      ),
+      Type2::UTF8ByteString { value, .. } => crate::token::fmt_utf8_byte_string(f, value),
       Type2::B16ByteString { value, .. } => {
         write!(f, "{}", ByteValue::B16(Cow::Borrowed(value.as_ref())))
       }
@@ -2038,16 +2034,22 @@ impl fmt::Display for Group<'_> {
     for (idx, gc) in self.group_choices.iter().enumerate() {
       let mut gc_str = gc.to_string();
 
+      // Short choices are put on one line and continuation lines are indented.
+      // A line break inside a quoted literal is content, not layout, so a choice
+      // that prints a literal is left as it is
+      let has_literal = gc_str.contains('\'') || gc_str.contains('"');
+
       #[cfg(feature = "ast-comments")]
       if self.group_choices.len() > 2
         && gc.group_entries.len() <= 3
         && !gc.has_entries_with_comments_before_comma()
+        && !has_literal
       {
         gc_str = gc_str.replace('\n', "");
       }
 
       #[cfg(not(feature = "ast-comments"))]
-      if self.group_choices.len() > 2 && gc.group_entries.len() <= 3 {
+      if self.group_choices.len() > 2 && gc.group_entries.len() <= 3 && !has_literal {
         gc_str = gc_str.replace('\n', "");
       }
 
@@ -2060,7 +2062,9 @@ impl fmt::Display for Group<'_> {
 
           #[cfg(feature = "ast-comments")]
           if self.group_choices.len() > 2 && gc.has_entries_with_comments_before_comma() {
-            gc_str = gc_str.replace('\n', "\n\t\t");
+            if !has_literal {
+              gc_str = gc_str.replace('\n', "\n\t\t");
+            }
             group_str.push_str(gc_str.trim());
           } else {
             group_str.push_str(gc_str.trim_start());
@@ -2068,7 +2072,9 @@ impl fmt::Display for Group<'_> {
 
           #[cfg(not(feature = "ast-comments"))]
           if self.group_choices.len() > 2 {
-            gc_str = gc_str.replace('\n', "\n\t\t");
+            if !has_literal {
+              gc_str = gc_str.replace('\n', "\n\t\t");
+            }
             group_str.push_str(gc_str.trim());
           } else {
             group_str.push_str(gc_str.trim_start());
@@ -2087,12 +2093,13 @@ impl fmt::Display for Group<'_> {
       gc_str = gc_str.trim().to_string();
 
       #[cfg(feature = "ast-comments")]
-      if self.group_choices.len() > 2 && gc.has_entries_with_comments_before_comma() {
+      if self.group_choices.len() > 2 && gc.has_entries_with_comments_before_comma() && !has_literal
+      {
         gc_str = gc_str.replace('\n', "\n\t\t");
       }
 
       #[cfg(not(feature = "ast-comments"))]
-      if self.group_choices.len() > 2 {
+      if self.group_choices.len() > 2 && !has_literal {
         gc_str = gc_str.replace('\n', "\n\t\t");
       }
 
